@@ -89,7 +89,20 @@ def split_bars(case):
     line = {"kind": "split", "metaIdx": meta_idx + 1, "qnl": qnl, "tracks": [], "tracksAfter": [], "absBefore": [],
             "absAfter": [], "bars": [], "raised": "", "compA": [], "compB": [], "case": {"tracks": tracks, "metaIdx": meta_idx, "qnl": qnl}}
     try:
+        late_extra = None
+        if idx % 8 == 1 and any(m["t"] > 0 for m in tracks[meta_idx].get("extras", [])):
+            # history: the piece was split into bars while its meta track did not yet hold its last signature / key change;
+            # the change is then added in place (add_absolute_message) and the piece - as it is now - is split again
+            ex = tracks[meta_idx]["extras"]
+            late_extra = max((m for m in ex if m["t"] > 0), key=lambda m: m["t"])
+            tracks = [dict(t, extras=[m for m in ex if m is not late_extra]) if i == meta_idx else t for i, t in enumerate(tracks)]
         seqs = [build(t, via(idx + i)) for i, t in enumerate(tracks)]
+        if late_extra is not None:
+            try:
+                Sequence.sequences_split_bars(seqs, meta_track_index=meta_idx, quantise_note_lengths=qnl)
+            except Exception:
+                pass
+            seqs[meta_idx].add_absolute_message(P.mk(late_extra))
         line["tracks"] = [P.raw_rel(s) for s in seqs]
         line["absBefore"] = [P.raw_abs(s) for s in seqs]
         if idx % 4 == 3:
